@@ -8,7 +8,16 @@
       lp_valid_linearizable : lp_valid S tr -> linearizable S (erase tr)
       lp_valid_wf           : lp_valid S tr -> wf_history (erase tr)
       wf_historyb_spec      : wf_historyb h = true <-> wf_history h
-      fifo_no_invention, fifo_at_most_once  (corollaries for FIFO queues)            *)
+      search_fuel_enough    : length h <= fuel -> search fuel (ops_of h) sinit = search (length h) ...
+      lincheck_memo_eq      : (forall a b, eqb a b = true -> a = b) ->
+                              lincheck_memo S eqb hash h = lincheck S h
+      fifo_no_invention, fifo_at_most_once, fifo_empty_was_empty  (corollaries for FIFO queues)
+
+    Structure: [search] is first related to an abstract notion [oplin] (a linearization of a
+    list of operations, no history involved: search_sound / search_complete); [ops_of h] is
+    shown to compute the operations of [h] (ops_of_spec / ops_of_has), which turns [oplin] into
+    [linearization h] (oplin_linearization).  [lp_valid_linearizable] is an invariant proof
+    (lp_inv) by induction on the trace from the right, so positions in the history are stable. *)
 
 Require Import List Arith Bool PeanoNat Lia ZArith.
 Require Import LV.Base.Lin LV.Spec.Specs.
@@ -826,7 +835,7 @@ End Proofs.
 (** ** The memoised search computes the same verdict *)
 
 Section MemoProofs.
-Context {Sp : Spec} (st_eqb : St Sp -> St Sp -> bool).
+Context {Sp : Spec} (st_eqb : St Sp -> St Sp -> bool) (st_hash : St Sp -> positive).
 Context (st_eqb_sound : forall a b, st_eqb a b = true -> a = b).
 (** [U]: the operations of the history; every [todo] met by the search is a sublist of it. *)
 Context (U : list (oper Sp)) (U_nodup : NoDup (map o_inv U)).
@@ -837,9 +846,32 @@ Definition dead (todo : list (oper Sp)) (s : St Sp) : Prop :=
 Definition good (todo : list (oper Sp)) : Prop :=
   incl todo U /\ NoDup (map o_inv todo).
 
+(** every entry of the trie satisfies [P] *)
+Fixpoint call (P : @entry Sp -> Prop) (c : @cache Sp) : Prop :=
+  match c with
+  | CLeaf => True
+  | CNode l es r => call P l /\ (forall e, In e es -> P e) /\ call P r
+  end.
+
+Lemma call_find (P : @entry Sp -> Prop) : forall p c e, call P c -> In e (cfind p c) -> P e.
+Proof.
+  induction p as [p IH|p IH|]; intros [|l es r] e H Hin; simpl in *; try easy;
+    destruct H as (Hl & Hes & Hr); eauto.
+Qed.
+
+Lemma call_add (P : @entry Sp -> Prop) e : P e -> forall p c, call P c -> call P (cadd p e c).
+Proof.
+  intros He. induction p as [p IH|p IH|]; intros [|l es r] H; simpl in *;
+    try destruct H as (Hl & Hes & Hr); repeat split; auto; try easy.
+  - intros e' [<-|[]]; auto.
+  - intros e' [<-|Hin]; auto.
+Qed.
+
 (** every cache entry is a dead end *)
-Definition cache_ok (c : @cache Sp) : Prop :=
-  forall k s, In (k, s) c -> forall todo, good todo -> map o_inv todo = k -> dead todo s.
+Definition entry_dead (e : @entry Sp) : Prop :=
+  forall todo, good todo -> map o_inv todo = fst e -> dead todo (snd e).
+
+Definition cache_ok (c : @cache Sp) : Prop := call entry_dead c.
 
 Lemma nats_eqb_eq : forall a b, nats_eqb a b = true -> a = b.
 Proof.
@@ -874,26 +906,26 @@ Proof.
   rewrite (search_complete lin f todo s O L) in H. discriminate.
 Qed.
 
-Lemma cached_dead k s c todo :
-  cache_ok c -> good todo -> map o_inv todo = k -> cached st_eqb k s c = true -> dead todo s.
+Lemma cached_dead p s c todo :
+  cache_ok c -> good todo -> cached st_eqb p (map o_inv todo) s c = true -> dead todo s.
 Proof.
-  intros C G E H. unfold cached in H. apply existsb_exists in H.
+  intros C G H. unfold cached in H. apply existsb_exists in H.
   destruct H as ([k' s'] & Hin & H); simpl in H.
   apply andb_true_iff in H; destruct H as [H1 H2].
   apply nats_eqb_eq in H1; apply st_eqb_sound in H2; subst.
-  eapply C; eauto.
+  apply (call_find _ _ _ _ C Hin); auto.
 Qed.
 
 Definition rec_ok (f : nat) : Prop :=
   forall todo s c, good todo -> length todo <= f -> cache_ok c ->
-    cache_ok (snd (msearch st_eqb f todo s c)) /\
-    fst (msearch st_eqb f todo s c) = search f todo s.
+    cache_ok (snd (msearch st_eqb st_hash f todo s c)) /\
+    fst (msearch st_eqb st_hash f todo s c) = search f todo s.
 
 Lemma try_all_spec f todo s :
   rec_ok f -> good todo -> length todo <= S f ->
   forall cands c, incl cands todo -> cache_ok c ->
-    cache_ok (snd (try_all (msearch st_eqb f) todo s cands c)) /\
-    fst (try_all (msearch st_eqb f) todo s cands c) =
+    cache_ok (snd (try_all (msearch st_eqb st_hash f) todo s cands c)) /\
+    fst (try_all (msearch st_eqb st_hash f) todo s cands c) =
     existsb (fun a => minimal todo a &&
                       let (s', r) := sstep Sp s (o_op a) in
                       result_ok a r && search f (drop_op a todo) s') cands.
@@ -906,7 +938,7 @@ Proof.
   destruct (result_ok a r); simpl; [|apply IH; auto].
   destruct (R (drop_op a todo) s' c) as [C' E]; auto using good_drop.
   { pose proof (drop_op_length a todo Ha); lia. }
-  destruct (msearch st_eqb f (drop_op a todo) s' c) as [b c']; simpl in *. subst b.
+  destruct (msearch st_eqb st_hash f (drop_op a todo) s' c) as [b c']; simpl in *. subst b.
   destruct (search f (drop_op a todo) s'); simpl; auto.
 Qed.
 
@@ -915,15 +947,16 @@ Proof.
   induction f as [|f IH]; intros todo s c G L C; simpl.
   - destruct (forallb is_open todo); simpl; auto.
   - destruct (forallb is_open todo) eqn:Eo; simpl; auto.
-    destruct (cached st_eqb (map o_inv todo) s c) eqn:Ec; simpl.
+    destruct (cached st_eqb (hash_entry st_hash (map o_inv todo) s) (map o_inv todo) s c) eqn:Ec;
+      simpl.
     + split; auto.
-      pose proof (cached_dead _ _ _ _ C G eq_refl Ec (S f)) as D.
+      pose proof (cached_dead _ _ _ _ C G Ec (S f)) as D.
       simpl in D; rewrite Eo in D; simpl in D; auto.
     + destruct (try_all_spec f todo s IH G L todo c (incl_refl _) C) as [C' E].
-      destruct (try_all (msearch st_eqb f) todo s todo c) as [b c']; simpl in *.
+      destruct (try_all (msearch st_eqb st_hash f) todo s todo c) as [b c']; simpl in *.
       rewrite <- E. destruct b; simpl; split; auto.
-      intros k s0 [Eq|Hin]; [|apply C'; auto].
-      injection Eq as <- <-. intros todo' G' Ek.
+      apply call_add; auto.
+      intros todo' G' Ek; simpl in *.
       assert (todo' = todo) by (apply key_inj; auto; [apply G'|apply G]). subst todo'.
       apply dead_of_false with (f := S f); auto; [apply G|].
       simpl; rewrite Eo; simpl; auto.
@@ -931,16 +964,17 @@ Qed.
 
 End MemoProofs.
 
-Theorem lincheck_memo_eq {Sp : Spec} (st_eqb : St Sp -> St Sp -> bool) (h : history Sp) :
+Theorem lincheck_memo_eq {Sp : Spec} (st_eqb : St Sp -> St Sp -> bool)
+    (st_hash : St Sp -> positive) (h : history Sp) :
   (forall a b, st_eqb a b = true -> a = b) ->
-  lincheck_memo Sp st_eqb h = lincheck Sp h.
+  lincheck_memo Sp st_eqb st_hash h = lincheck Sp h.
 Proof.
   intros Hs. unfold lincheck_memo, lincheck. f_equal.
-  destruct (msearch_spec st_eqb Hs (ops_of h) (ops_from_nodup h 0)
-              (length h) (ops_of h) (sinit Sp) []) as [_ E]; auto.
+  destruct (msearch_spec st_eqb st_hash Hs (ops_of h) (ops_from_nodup h 0)
+              (length h) (ops_of h) (sinit Sp) CLeaf) as [_ E]; auto.
   - split; [apply incl_refl|apply ops_from_nodup].
   - apply ops_from_length.
-  - intros k s [].
+  - exact I.
 Qed.
 
 (** ** Corollaries for FIFO queues
@@ -1175,6 +1209,11 @@ Definition tr_good : list (aev Fifo) :=
    @ARes Fifo 0%nat (RBool true); @ARes Fifo 1%nat (RBool true);
    @AInv Fifo 0%nat Deq; @AInv Fifo 1%nat Deq; @ALin Fifo 0%nat; @ARes Fifo 0%nat (RVal (Some 2));
    @ALin Fifo 1%nat; @ARes Fifo 1%nat (RVal (Some 1))].
+
+Example lincheck_memo_agrees :
+  lincheck_memo Fifo zlist_eqb zlist_hash h_bad = false /\
+  lincheck_memo Fifo zlist_eqb zlist_hash h_good = true.
+Proof. split; vm_compute; reflexivity. Qed.
 
 Example tr_good_valid : lp_valid Fifo tr_good /\ erase tr_good = h_good.
 Proof. split; [apply lp_validb_spec; vm_compute|]; reflexivity. Qed.
